@@ -259,10 +259,13 @@ type Exec struct {
 	pendingLocals func(name string) (tv, bool)
 	constGlobals []string
 	usedAxioms map[string]bool
+	assumedClauses map[string]bool
 	niReturns   []niReturn
 	niSecrets   map[string][]Term // component -> references whose contents are secret
 	diamondStop *ssa.BasicBlock
 	diamondEnds *[]*State
+	regionStop  *ssa.BasicBlock
+	regionEnds  *[]regionEnd
 	merged      int
 	unfolded map[string]bool // opaque spec function applications whose defining equation was emitted
 	reified map[string]*Ptr // symbolic field addresses that were turned into reference terms
